@@ -4668,6 +4668,7 @@ py_statements = [
     # XXX - must release after copying result.
     dict(
         name="py_vector_result_list",
+        c_helper="to_PyList_vector_{cxx_T}",
         declare=[
             "PyObject * {py_var} = {nullptr};",
         ],
